@@ -117,9 +117,9 @@ def _c06_same_path(seed):
 def bounded_puml(tier, seed):
     from pytestarch.diagram_extension.exceptions import PumlParsingError
     b = Bounded("C06.puml-parse-vs-generated-relation", "random component relations over 2-6 components (30% with dotted fully qualified names), per component one of 6 declaration forms or undeclared, "
-                "per arrow one of 8 arrow forms and a bracketed-name or alias reference, shuffled line order, 0-2 noise lines before @startuml and after @enduml; 10000 (quick) / 60000 diagrams; "
+                "per arrow one of 8 arrow forms and a bracketed-name or alias reference, shuffled line order, 0-2 noise lines before @startuml and after @enduml; 10000 (quick) / 400000 diagrams; "
                 "files without tags must raise PumlParsingError")
-    for res in pmap(_c06_case, [seed * 100003 + i for i in range(10000 if tier == "quick" else 60000)]):
+    for res in pmap(_c06_case, [seed * 100003 + i for i in range(10000 if tier == "quick" else 400000)]):
         b.case()
         for v in res:
             b.violation(v["case"], v["detail"], v["input"])
@@ -246,8 +246,8 @@ def _c07_case(seed):
 def bounded_diagram_rule(tier, seed):
     b = Bounded("C07.diagram-rule-vs-conformance", "random component relations over 2-5 components (incl. isolated declared components, a component named like the base module), import graphs over the "
                 "components, their sub modules, a bystander and a prefix-named sibling: conforming imports randomly perturbed; both modes (should-only / should); with_base_module naming; "
-                "6000 (quick) / 40000 cases; on failure every violated forbidden pair must appear in the aggregated message")
-    for res in pmap(_c07_case, [seed * 100003 + i for i in range(6000 if tier == "quick" else 40000)]):
+                "6000 (quick) / 250000 cases; on failure every violated forbidden pair must appear in the aggregated message")
+    for res in pmap(_c07_case, [seed * 100003 + i for i in range(6000 if tier == "quick" else 250000)]):
         b.case()
         for v in res:
             b.violation(v["case"], v["detail"], v["input"])
